@@ -498,7 +498,37 @@ class Gen(object):
                 n = self.rng.choice([2, 3])         # refused: the end is not a vector of that length
         elif r < 0.32:
             n = self.rng.choice([0, -1])
-        st = self.do("mkc %d %d" % (h, n))
+        grid = ""
+        if self.rng.random() < 0.4:
+            # the parameter's OWN sigma frequency grid: inside / equal to / longer than the range of the initial guess at
+            # either end, overlapping one end, disjoint, negative, not ascending; with one sigma value the grid is ignored
+            e = self.end_info(h)
+            lo, hi = (e[1][0], e[1][-1]) if e is not None and e[0] == "v" and e[1] else (self.rng.randrange(0, 4), self.rng.randrange(4, 9))
+            k = self.rng.random()
+            if k < 0.18:
+                g = [lo, hi] if lo < hi else [lo, lo + 1]
+            elif k < 0.36:
+                g = [lo + 1, hi - 1] if hi - lo >= 3 else [lo, lo + 1]
+            elif k < 0.50:
+                g = [max(0, lo - 2), hi + 3]
+            elif k < 0.62:
+                g = [max(0, lo - 1), max(lo, hi - 1)] if max(0, lo - 1) < max(lo, hi - 1) else [lo, hi + 1]
+            elif k < 0.74:
+                g = [lo + 1, hi + 2] if lo + 1 < hi + 2 else [lo, hi + 1]
+            elif k < 0.82:
+                g = [hi + 1, hi + 4]                                  # disjoint (refused when the end is a vector)
+            elif k < 0.88:
+                g = [-1, hi]                                          # negative: refused
+            elif k < 0.94:
+                g = [hi, hi] if self.rng.random() < 0.5 else [hi + 1, lo]    # not ascending: refused
+            else:
+                g = [self.rng.choice([-3, 0, 50])]                    # one sigma value: the grid is not looked at
+            if len(g) >= 2 and g[0] < g[1] and self.rng.random() < 0.4:
+                mid = [x for x in range(g[0] + 1, g[1])]
+                g = [g[0]] + sorted(self.rng.sample(mid, min(len(mid), self.rng.randint(0, 2)))) + [g[1]]
+            n = len(g)
+            grid = " " + " ".join(map(str, g))
+        st = self.do("mkc %d %d%s" % (h, n, grid))
         self.made(st, ("c", h))
 
     def op_delp(self):
@@ -1070,6 +1100,24 @@ def directed_scripts():
         qs = list(range(max(0, fsv[0] - 1), fsv[-1] + 2))
         vb += ["getv %d %d" % (3 + k, f) for f in qs] + ["getv %d %d" % (3 + k, f) for f in reversed(qs)]
     out["vector_between_knots"] = vb + ["free"]
+    # correlated parameters with their OWN sigma frequency grid (review round 2, C16 MEDIUM 1): the range of the parameter
+    # is the range of the initial guess clamped by the grid (only the grid of the parameter asked about, not of the
+    # parameters below it); validation of the grid: non-negative, ascending, not disjoint with a vector initial guess
+    out["sigma_grids"] = [
+        "mkv 5 1 2 3 4 5 10 0 20 0 30 0 40 0 50 0", "mku 3",
+        "mkc 4 3 2 3 4", "mkc 4 5 1 2 3 4 5", "mkc 4 3 0 3 9", "mkc 4 2 0 3", "mkc 4 2 3 9",
+        "mkc 4 2 6 9", "mkc 4 2 -1 3", "mkc 4 2 3 3", "mkc 4 3 2 4 3", "mkc 4 1 77", "mkc 4 1 -5", "mkc 4 5", "mkc 4 4",
+        "mks 20 5", "mkc 12 2 0 1000", "mkc 12 3 4 5 6", "mkc 5 2 1 5", "mkc 5 2 2 3",
+        "nalloc 0 0 1 5", "setf 0 1",
+        "addstd 0 1 5 5 1 1 1 1 1 1 1 1 1 1", "addstd 0 1 6 5 1 1 1 1 1 1 1 1 1 1", "addstd 0 1 7 5 1 1 1 1 1 1 1 1 1 1",
+        "addstd 0 1 8 5 1 1 1 1 1 1 1 1 1 1", "addstd 0 1 9 5 1 1 1 1 1 1 1 1 1 1", "addstd 0 1 10 5 1 1 1 1 1 1 1 1 1 1",
+        "addstd 0 1 13 5 1 1 1 1 1 1 1 1 1 1", "addstd 0 1 14 5 1 1 1 1 1 1 1 1 1 1", "addstd 0 1 15 5 1 1 1 1 1 1 1 1 1 1",
+        "addstd 0 1 16 5 1 1 1 1 1 1 1 1 1 1", "addstd 0 1 17 5 1 1 1 1 1 1 1 1 1 1",
+        "nalloc 1 0 1 3", "setf 1 2",
+        "addstd 1 1 5 3 1 1 1 1 1 1", "addstd 1 1 8 3 1 1 1 1 1 1", "addstd 1 1 9 3 1 1 1 1 1 1", "addstd 1 1 17 3 1 1 1 1 1 1",
+        "addstd 1 1 15 3 1 1 1 1 1 1",
+        "nalloc 2 0 1 2", "addstd 2 1 5 2 1 1 1 1", "addstd 2 1 8 2 1 1 1 1", "setf 2 1", "setf 2 3", "setf 2 2",
+        "nfree 0", "nfree 1", "nfree 2", "free"]
     out["zero_frequencies"] = [
         "mkv 2 5 6 10 0 20 0", "mks 20 5", "nalloc 0 0 1 0", "solve 0 1", "addstd 0 1 3 0", "setf 0 -5", "addstd 0 1 3 0",
         "addstd 0 1 0 0", "addstd 0 1 1 0", "addstd 0 1 2 0", "solve 0 1", "addcal 0 c1", "getcal 0", "end", "find c1",
@@ -1108,7 +1156,7 @@ def run(ctx):
     thorough = ctx.tier == "thorough"
 
     # ------------------------------------------------------------------ 1. Coq
-    vfiles = ["CalTab/CalTabModel.v", "CalTab/TableSpec.v", "CalTab/CalTabProofs.v", "CalTab/CalTabWalks.v", "CalTab/CalTabParams.v", "CalTab/CalTabVector.v",
+    vfiles = ["CalTab/CalTabModel.v", "CalTab/TableSpec.v", "CalTab/CalTabProofs.v", "CalTab/CalTabWalks.v", "CalTab/CalTabParams.v", "CalTab/CalTabVector.v", "CalTab/CalTabSigma.v",
               "Properties_C16.v"]
     vfiles = [v for v in vfiles if os.path.exists(os.path.join(vplib.COQDIR, v))]
     coq_ok, res = ctx.coq_obligations(vfiles)
